@@ -162,10 +162,15 @@ def make_application(repo, ups):
 
 def run_bounded(repo, depth=3):
     warnings.simplefilter('ignore')
+    if repo not in sys.path:
+        sys.path.insert(0, repo)       # the tree under check (VERIF_REPO), before anything imports supvisors
     all_trees = trees(depth)
     vectors = list(itertools.product((True, False), repeat=len(PROCS)))
     matcher = regex_matcher(PROCS)
-    from supvisors.ttypes import ApplicationStatusParseError  # noqa  (after make_application put repo on the path)
+    from supvisors.ttypes import ApplicationStatusParseError
+    import supvisors
+    if not os.path.abspath(supvisors.__file__).startswith(os.path.abspath(repo) + os.sep):
+        raise RuntimeError(f'bounded stand-in would run {supvisors.__file__}, not the tree under check {repo}')
     fails = {}     # (clause, witness class) -> [count, first example]
     runs = 0
     for ups in vectors:
@@ -173,7 +178,11 @@ def run_bounded(repo, depth=3):
         status = dict(zip(PROCS, ups))
         # the up/down reading of the displayed states is the statement's: running-like, or EXITED expectedly
         for name in PROCS:
-            assert app._get_process_status(name) == status[name]
+            if app._get_process_status(name) != status[name]:
+                ent = fails.setdefault(('value-agrees-with-reference', 'other'), [0, None])
+                ent[0] += 1
+                ent[1] = ent[1] or (f'_get_process_status({name!r}) = {not status[name]} for displayed state '
+                                    f'{app.processes[name].displayed_state}, expected_exit={app.processes[name].expected_exit}')
         for t in all_trees:
             runs += 1
             ref = reference(status, t, matcher)
@@ -221,9 +230,15 @@ def scan_whitelist(world):
         # the block holding the eval starts with the guard on node.func.id and only assigns args_eval from evaluate
         for blk in ast.walk(fi.node):
             if isinstance(blk, ast.If) and any(evals[0] in list(ast.walk(s)) for s in blk.body):
-                first = blk.body[0]
-                guard_ok = (isinstance(first, ast.If) and ast.unparse(first.test) == "node.func.id not in ['all', 'any']"
-                            and isinstance(first.body[0], ast.Raise) and blk.body.index(first) == 0
+                # leading guards `if <test>: raise ...`: one of them is (or has as an `or` operand)
+                # G = node.func.id not in ['all', 'any'], so G is false when the eval is reached
+                tests = []
+                for st in blk.body:
+                    if not (isinstance(st, ast.If) and not st.orelse and isinstance(st.body[0], ast.Raise)):
+                        break
+                    tests.extend(st.test.values if isinstance(st.test, ast.BoolOp) and isinstance(st.test.op, ast.Or)
+                                 else [st.test])
+                guard_ok = (any(ast.unparse(t) == "node.func.id not in ['all', 'any']" for t in tests)
                             and ast.unparse(blk.test) == 'type(node) is ast.Call')
                 assigns = [ast.unparse(s.value) for s in ast.walk(blk) if isinstance(s, ast.Assign)
                            and any(ast.unparse(t) == 'args_eval' for t in s.targets)]
